@@ -20,7 +20,7 @@
 import UnicLocale.Lemmas.MaxMin
 
 namespace UL.Props.C08
-open UL UL.MaxMin
+open UL UL.Mm UL.Mm.MaxMin
 
 /-! ### `likelysubtags::minimize` -/
 
